@@ -8,6 +8,7 @@
 //! A disagreement is shrunk (delta debugging on the AST) before it is reported.
 mod ast;
 mod frag;
+mod frag1;
 mod from_real;
 mod progen;
 mod shrink;
@@ -378,6 +379,36 @@ fn report(ev: &mut Ev, ck: &mut Checker, origin: &str, p: &Program, model: &str,
     );
 }
 
+/// the compiler REJECTS a program that must compile: a must-pass regression entry, or a validated
+/// generated program rejected for a reason the validator rules out (an undefined variable: the
+/// validator checks every read against the bindings in scope)
+fn report_rejected(ev: &mut Ev, ck: &mut Checker, origin: &str, p: &Program, why: &str, shrinkable: bool) {
+    let class = |r: &str| r.split(':').take(2).collect::<Vec<_>>().join(":");
+    let k = class(why);
+    let small = if ck.imp.dead || !shrinkable {
+        p.clone()
+    } else {
+        shrink::shrink(
+            p,
+            |q| {
+                if q.prints_ambiguously() || validate::validate(q).is_err() {
+                    return false;
+                }
+                matches!(ck.imp.run(&q.src()), Impl::Rejected(r2) if class(&r2) == k)
+            },
+            600,
+        )
+    };
+    let what = format!("the compiler rejects a program of the compared fragment ({k}): `{}` — {}", small.src(), why.chars().take(200).collect::<String>());
+    ev.violation(
+        "core-program kind=valid-program-rejected",
+        &what,
+        json!({"origin": origin, "source": small.src(), "sexpr": small.sx(), "rejection": why, "unshrunk_source": p.src(),
+               "how_to_replay": "echo '<source>' | quiv repl"}),
+        true,
+    );
+}
+
 fn main() {
     qverif::quiet_panics();
     let opts = Opts::parse();
@@ -477,6 +508,10 @@ fn main() {
                         Verdict::Skip(w) => {
                             ev.hit(&format!("corpus.skip.{}", w.split(':').take(2).collect::<Vec<_>>().join(":")));
                             eprintln!("corpus entry not compared ({w}): {origin}");
+                            if let (Some(why), None) = (w.strip_prefix("rejected:"), &expect_known) {
+                                // a must-pass entry the compiler no longer accepts
+                                report_rejected(&mut ev, &mut ck, &origin, &p, why, false);
+                            }
                         }
                         Verdict::Disagree { model, imp } => {
                             let _ = (m, i);
@@ -586,6 +621,109 @@ fn main() {
         ev.set_extra("fragment_programs", json!({"generated": nfrag, "instruction_sequences_equal": equal}));
     }
 
+    // ---- 2c. fragment compiler model WITH locals, bindings and simple matches (Compile1.lean) ---------
+    {
+        let b = qverif::run::builtins();
+        let nfrag = opts.tier.pick(2500u64, 15000u64);
+        let mut equal = 0u64;
+        let mut values_equal = 0u64;
+        for i in 0..nfrag {
+            let mut r = Rng::for_case(opts.seed ^ 0xF1A6, i);
+            let mut g = frag1::Gen { r: &mut r, env: vec![], counter: 0 };
+            let seq = g.seq(2);
+            let src = frag1::src_seq(&seq);
+            let unit = match compile_program(&src, &b) {
+                Ok(u) => u,
+                Err(e) => {
+                    ev.hit("fragment1.rejected");
+                    eprintln!("fragment1 program rejected: {src}: {e:?}");
+                    continue;
+                }
+            };
+            let case = frag1::prepare(&seq, &unit);
+            ev.case(&format!("frag1:{src}"), false);
+            let answer = match &case.chains {
+                Some(chs) => ck.model.ask(&format!("(compile1 {chs})")),
+                None => "no-request (instruction stream has fewer constants / tuples than the term)".to_string(),
+            };
+            let model_code = answer.strip_prefix("ok").map(|s| s.trim().to_string());
+            if case.checks_ok && model_code.as_deref() == Some(case.real.as_str()) {
+                equal += 1;
+                ev.hit("fragment1.instruction-sequences-equal");
+                ev.hit(&format!("fragment1.steps.{}", seq.len()));
+                if case.real.contains("equal2") {
+                    ev.hit("fragment1.with-literal-test");
+                }
+                if case.real.contains("get") {
+                    ev.hit("fragment1.with-tuple-destructuring");
+                }
+                if case.real.contains("load") {
+                    ev.hit("fragment1.with-variable-read");
+                }
+                if i < 3 {
+                    ev.sample(json!({"fragment1_source": src, "instructions": case.real}));
+                }
+                // the meaning function of the correctness theorem vs the value the real VM computes
+                let meaning = ck.model.ask(&format!("(eval1 {})", case.chains.as_deref().unwrap_or("")));
+                let bc = unit.program.to_bytecode(Some(unit.entry));
+                let real_value = match qverif::catch(|| run_limited(bc, &b, 100)) {
+                    Ok(Ok(Some((v, _)))) => format!("ok {}", frag1::show_value(&v)),
+                    Ok(Ok(None)) => "step-budget-exhausted".to_string(),
+                    Ok(Err(e)) => format!("error {e:?}"),
+                    Err(p) => format!("panic {}", p.lines().next().unwrap_or("")),
+                };
+                let model_value = meaning.split_whitespace().take(2).collect::<Vec<_>>().join(" ");
+                if model_value == real_value {
+                    values_equal += 1;
+                    ev.hit("fragment1.meaning-equals-real-value");
+                    if real_value == "ok t(0;)" {
+                        ev.hit("fragment1.value-nil");
+                    }
+                } else if meaning.trim() == "stuck" && real_value.starts_with("error") {
+                    // a tuple pattern on the nil a failed match left in a variable: outside the typing
+                    // assumption of the meaning function, a run-time error in the VM
+                    ev.hit("fragment1.stuck-and-runtime-error");
+                } else {
+                    ev.hit("fragment1.meaning-differs");
+                    if opts.has_flag("--dump-frag1") {
+                        eprintln!("FRAG1-MEANING\t{}\t{}\t{}\t{}", src.len(), src, real_value, meaning);
+                    }
+                    let what = format!(
+                        "the meaning function of the fragment theorem (C1.evalSq) and the real VM differ on `{}`: VM `{}`, evalSq `{}`",
+                        src, real_value, meaning
+                    );
+                    ev.violation(
+                        "fragment1 kind=meaning-differs",
+                        &what,
+                        json!({"broken": "C1.evalSq (statement of compileSq1_correct) vs real execution", "source": src, "real": real_value, "model": meaning}),
+                        false,
+                    );
+                }
+            } else {
+                ev.hit("fragment1.mismatch");
+                if opts.has_flag("--dump-frag1") {
+                    eprintln!("FRAG1-MISMATCH\t{}\t{}\t{}\t{}\t{}", src.len(), src, case.real, answer, case.note);
+                }
+                let what = format!(
+                    "the fragment compiler model (Compile1.lean, proved correct against M-VM) and quiver-compiler emit different code for `{}`: compiler `{}`, model `{}` {}",
+                    src, case.real, answer, case.note
+                );
+                let conv = from_real::convert_source(&src);
+                let mut concrete = false;
+                let mut replay = json!({"broken": "correspondence compile1 model<->compiler.rs (instruction-sequence equality)", "source": src, "compiler": case.real, "model": answer, "note": case.note});
+                if let Ok(p) = conv {
+                    let (v, _m, _imp) = ck.check(&p);
+                    if let Verdict::Disagree { model, imp: i2 } = v {
+                        concrete = true;
+                        replay = json!({"source": src, "sexpr": p.sx(), "implementation": i2, "reference": model, "compiler_instructions": case.real, "model_instructions": answer});
+                    }
+                }
+                ev.violation("fragment1 kind=instruction-sequence-differs", &what, replay, concrete);
+            }
+        }
+        ev.set_extra("fragment1_programs", json!({"generated": nfrag, "instruction_sequences_equal": equal, "meaning_equals_real_value": values_equal}));
+    }
+
     // ---- 3. generated programs ---------------------------------------------------------------------
     let n = opts.tier.pick(25000u64, 150000u64);
     let mut accepted = 0u64;
@@ -638,6 +776,9 @@ fn main() {
                     reject_samples.push(json!({"source": p.src(), "why": r}));
                 }
                 ev.hit("gen.rejected");
+                if r.starts_with("compile:VariableUndefined") {
+                    report_rejected(&mut ev, &mut ck, &format!("gen:{i}"), &p, r, true);
+                }
                 continue;
             }
             _ => accepted += 1,
